@@ -1,5 +1,7 @@
 import Driver.Proto
 import ScrapliModel.Channel
+import ScrapliModel.ChannelOps
+import ScrapliModel.Generated.C01
 import ScrapliModel.Generated.Patterns
 import ScrapliModel.Generated.Consts
 namespace Driver.C01
@@ -12,9 +14,6 @@ def mkCfg (depth : Nat) (exact strip : Bool) (ret : Bytes) : Cfg :=
     ret := ret,
     promptP := fun w => Rx.isMatch Gen.Rx.Channel.promptPattern w,
     stripP := fun b => Rx.replaceAll Gen.Rx.Channel.promptPattern b [] }
-
-def exactAtB (P : Bytes → Bool) (S : Bytes) : Bool :=
-  P S && (List.range S.length).all fun k => !P (S.take k)
 
 def wellFormedB (cfg : Cfg) (x : Exchange) : Bool :=
   !x.echo.flatten.isEmpty && exactAtB (echoPred cfg x.cmd) x.echo.flatten &&
@@ -31,10 +30,77 @@ def parseExchanges : List String → Option (List Exchange)
             resp := resp.map (normalizeChunk stripAnsi) } :: rest)
   | _ => none
 
+/-! ### mixed sessions: sends with options and GetPrompt (`ScrapliModel/ChannelOps.lean`) -/
+
+/-- interim prompt pattern `i` of the generated table (`go/facts/c01_table.go`) -/
+def interimP (i : Nat) : Bytes → Bool :=
+  match Gen.C01.interim[i]? with
+  | some re => fun w => Rx.isMatch re w
+  | none => fun _ => false
+
+/-- `PromptPattern.Find` (nil = empty) -/
+def findPrompt (b : Bytes) : Bytes := (Rx.findBytes Gen.Rx.Channel.promptPattern b).getD []
+
+def parseIdx01 (s : String) : Option (List Nat) :=
+  if s == "" then some [] else (s.splitOn ",").mapM String.toNat?
+
+def normL (cs : List Bytes) : List Bytes := cs.map (normalizeChunk stripAnsi)
+
+def parseSendOpts (k : String) : Option SendOpts :=
+  if k == "S" then some {}
+  else if k == "E" then some { eager := true }
+  else if k.startsWith "I" then (parseIdx01 (k.drop 1).toString).map fun is => { interim := is.map interimP }
+  else none
+
+/-- `P <resp-chunks>` | `S|E|I<i,j,…> <cmd> <echo-chunks> <resp-chunks>` -/
+def parseOps : List String → Option (List ChanOp)
+  | [] => some []
+  | [_] => none
+  | k :: r :: t =>
+    if k == "P" then do
+      let resp ← hexList r
+      let rest ← parseOps t
+      pure (.prompt (normL resp) :: rest)
+    else
+      match t with
+      | e :: r2 :: t' => do
+        let o ← parseSendOpts k
+        let cmd ← fromHex r
+        let echo ← hexList e
+        let resp ← hexList r2
+        let rest ← parseOps t'
+        pure (.send o { cmd := cmd, echo := normL echo, resp := normL resp } :: rest)
+      | _ => none
+
+/-- `WFOp` as a Boolean -/
+def wfOpB (cfg : Cfg) (stale : Bytes) : ChanOp → Bool
+  | .send o x =>
+    let e := stale ++ x.echo.flatten
+    let r := sendPre cfg stale x ++ x.resp.flatten
+    (skipsEcho cfg x.cmd || (!e.isEmpty && exactAtB (echoPred cfg x.cmd) e)) &&
+      (o.eager || (!r.isEmpty && exactAtB (finalPred cfg o.interim) r))
+  | .prompt resp =>
+    let e := stale ++ resp.flatten
+    promptQueued cfg stale || (!e.isEmpty && exactAtB (promptPred cfg) e)
+
+def wfOpsB (cfg : Cfg) : Bytes → List ChanOp → Bool
+  | _, [] => true
+  | st, op :: ops => wfOpB cfg st op && wfOpsB cfg (op.leaves cfg st) ops
+
+/-- index of the first operation that is not well formed (`ops.length` when all are) -/
+def firstBad (cfg : Cfg) : Bytes → List ChanOp → Nat
+  | _, [] => 0
+  | st, op :: ops => if wfOpB cfg st op then firstBad cfg (op.leaves cfg st) ops + 1 else 0
+
 /-- `c01 sess <depth> <exact> <strip> <ret> (<cmd> <echo-chunks> <resp-chunks>)*`
     → `<dom> <ok> <results> <queue-empty> <writes>`;
     `c01 window <depth> <hex>` → window; `c01 rough <input> <output>` → 0/1;
-    `c01 pout <strip> <ret> <hex>` → processOut; `c01 norm <hex>` → normalizeChunk -/
+    `c01 pout <strip> <ret> <hex>` → processOut; `c01 norm <hex>` → normalizeChunk;
+    `c01 ops <depth> <exact> <strip> <ret> <init-chunks> <op>*` (ops as in `parseOps`)
+    → `<dom> <ok> <results> <queue-as-specified> <writes> <spec-results> <index of the first
+    operation that is not well formed>`;
+    `c01 ipat <i> <hex>` → does interim pattern `i` match; `c01 log <chunks>` → what the channel
+    log receives for these reads (the normalised chunks, concatenated) -/
 def handleC01 : List String → String
   | "sess" :: depth :: exact :: strip :: ret :: xs =>
     match depth.toNat?, fromHex ret, parseExchanges xs with
@@ -45,6 +111,26 @@ def handleC01 : List String → String
       | none => s!"{b2s dom} 0 . 0 ."
       | some (rs, s) => s!"{b2s dom} 1 {showHexList rs} {b2s s.q.flatten.isEmpty} {showHexList s.writes}"
     | _, _, _ => "bad-op"
+  | "ops" :: depth :: exact :: strip :: ret :: init :: xs =>
+    match depth.toNat?, fromHex ret, hexList init, parseOps xs with
+    | some d, some ret, some init, some ops =>
+      let cfg := mkCfg d (s2b exact) (s2b strip) ret
+      let q0 := normL init
+      let dom := wfOpsB cfg q0.flatten ops
+      let spec := specOps cfg findPrompt q0.flatten ops
+      match runOps cfg findPrompt { q := q0, writes := [] } ops with
+      | none => s!"{b2s dom} 0 . 0 . {showHexList spec} {firstBad cfg q0.flatten ops}"
+      | some (rs, s) =>
+        s!"{b2s dom} 1 {showHexList rs} {b2s (s.q.flatten == leavesOps cfg q0.flatten ops)} {showHexList s.writes} {showHexList spec} {firstBad cfg q0.flatten ops}"
+    | _, _, _, _ => "bad-op"
+  | ["ipat", i, h] =>
+    match i.toNat?, fromHex h with
+    | some i, some b => b2s (interimP i b)
+    | _, _ => "bad-op"
+  | ["log", cs] =>
+    match hexList cs with
+    | some cs => toHex (normL cs).flatten
+    | none => "bad-op"
   | ["window", depth, h] =>
     match depth.toNat?, fromHex h with
     | some d, some b => toHex (window b d)
